@@ -25,3 +25,5 @@ OBLIGATIONS = [
        defs=["-DPART=3", "-DNB=64"]),
     ob("c11.f.prims.len_37", "hf_ct_prims", 3, ["chacha20_encrypt_bytes (ref)", "crypto_onetimeauth_poly1305_donna", "crypto_shorthash_siphash24"], "same at 37/37/20 bytes (partial blocks)", defs=["-DPART=3", "-DNB=37"], tier="thorough"),
 ]
+
+LEVEL_OVERRIDE = {"C11": "other"}
